@@ -71,6 +71,31 @@ def sites(path, ops=None):
         st = ln.strip()
         if not st or st.startswith("//") or st.startswith("#[") or st.startswith("*") or st.startswith("use "):
             continue
+        if ops and "swap" in ops:
+            # two consecutive argument lines of a multi-line call exchanged
+            nxt = lines[i + 1] if i + 1 < len(lines) else ""
+            arg = r"^\s+[\w&\.\(\)\[\]:\* ]+,\s*$"
+            if re.match(arg, ln) and re.match(arg, nxt) and ln.strip() != nxt.strip() and "=>" not in ln and ":" not in ln.replace("::", "") and ":" not in nxt.replace("::", ""):
+                out.append((i, "swap-lines " + st[:30] + " <-> " + nxt.strip()[:30], (nxt + "\n" + ln, 2)))
+            # adjacent arguments of a single-line call exchanged
+            for m in re.finditer(r"\b([a-z_][a-z0-9_]*)\(", ln):
+                if m.group(1) in ("if", "while", "match", "for", "fn", "format", "Some", "Ok", "Err") or re.search(r"\bfn\s+$", ln[:m.start()]):
+                    continue
+                k = m.end()
+                from .permute import match_paren, split_top
+                e = match_paren(ln, k)
+                if e > len(ln) or ln[e - 1] != ")":
+                    continue
+                args = split_top(ln[k:e - 1])
+                if len(args) < 2 or len(args) > 6:
+                    continue
+                for j in range(len(args) - 1):
+                    if args[j].strip() == args[j + 1].strip():
+                        continue
+                    a2 = list(args)
+                    a2[j], a2[j + 1] = " " + a2[j + 1].strip() if j else a2[j + 1].strip(), " " + a2[j].strip()
+                    out.append((i, "swap-args %s #%d" % (m.group(1), j), ln[:k] + ",".join(a2) + ln[e - 1:]))
+            continue
         if ops and "more" in ops:
             if re.match(r"^\s*(pub(\([a-z]+\))? )?(type|const|static) ", ln):
                 continue
@@ -115,6 +140,9 @@ def sites(path, ops=None):
 
 def run_one(task):
     fn, lineno, desc, newline, slot, tgt_pool = task
+    span = 1
+    if isinstance(newline, tuple):
+        newline, span = newline
     tmp = tempfile.mkdtemp(prefix="dryoc-mut-")
     root = os.path.join(tmp, "repo")
     res = {"file": fn, "line": lineno + 1, "desc": desc}
@@ -122,7 +150,7 @@ def run_one(task):
         shutil.copytree(REPO, root, ignore=lambda d_, n: [x for x in n if x in (".git", "target")])
         p = os.path.join(root, fn)
         lines = open(p).read().split("\n")
-        lines[lineno] = newline
+        lines[lineno:lineno + span] = newline.split("\n")
         open(p, "w").write("\n".join(lines))
         env = dict(os.environ, CARGO_NET_OFFLINE="true", CARGO_TARGET_DIR=os.path.join(VERIF, ".work", "target-mut-%d" % slot))
         cmd = ["cargo", "test", "--offline", "--quiet", "--lib", "--tests"]
@@ -174,7 +202,7 @@ def main():
         keep = set()
         for l in open(a.retry):
             r = l.rstrip("\n").split("\t")
-            if len(r) >= 4 and r[3] == "pass" and (len(r) < 5 or not r[4]) and "zeroize" not in r[2]:
+            if len(r) >= 4 and r[3] == "pass" and (len(r) < 5 or not r[4]) and "zeroize" not in r[2] and "derive #" not in r[2]:
                 keep.add((r[0], int(r[1]) - 1, r[2]))
         tasks = [t_ for t_ in tasks if (t_[0], t_[1], t_[2]) in keep]
     if a.limit:
